@@ -238,6 +238,18 @@ func init() {
 		"math/rand.Int31n":  func(fr *frame, a []value) value { fr.i.noteEnv("math/rand.Int31n modelled as 0"); return int32(0) },
 		"math/rand.Uint32":  func(fr *frame, a []value) value { fr.i.noteEnv("math/rand.Uint32 modelled as 0"); return uint32(0) },
 
+		// the proxy's logger: arguments are evaluated by the caller, the sink is empty
+		"github.com/XiaoMi/Gaea/log.Debug":   extLogNop,
+		"github.com/XiaoMi/Gaea/log.Debugx":  extLogNop,
+		"github.com/XiaoMi/Gaea/log.Trace":   extLogNop,
+		"github.com/XiaoMi/Gaea/log.Tracex":  extLogNop,
+		"github.com/XiaoMi/Gaea/log.Notice":  extLogNop,
+		"github.com/XiaoMi/Gaea/log.Noticex": extLogNop,
+		"github.com/XiaoMi/Gaea/log.Warn":    extLogNop,
+		"github.com/XiaoMi/Gaea/log.Warnx":   extLogNop,
+		"github.com/XiaoMi/Gaea/log.Fatal":   func(fr *frame, a []value) value { fr.i.noteEnv("log.Fatal reached"); return iface{} },
+		"github.com/XiaoMi/Gaea/log.Fatalx":  func(fr *frame, a []value) value { fr.i.noteEnv("log.Fatal reached"); return iface{} },
+
 		"sort.Slice":       extSortSlice,
 		"sort.SliceStable": extSortSlice,
 	} {
@@ -245,6 +257,32 @@ func init() {
 			externals[k] = v
 		}
 	}
+}
+
+func extLogNop(fr *frame, a []value) value { return iface{} }
+
+// condExternals: functions summarised only when an operand is symbolic
+// (formatting of symbolic times for log messages); concrete calls run the real code.
+var condExternals = map[string]func(fr *frame, a []value) (value, bool){
+	"(time.Time).Format": func(fr *frame, a []value) (value, bool) {
+		if isSymbolic(a[0]) {
+			fr.i.noteEnv("formatting of a symbolic time rendered as <time> (log text)")
+			return "<time>", true
+		}
+		return nil, false
+	},
+	"(time.Time).String": func(fr *frame, a []value) (value, bool) {
+		if isSymbolic(a[0]) {
+			return "<time>", true
+		}
+		return nil, false
+	},
+	"(time.Duration).String": func(fr *frame, a []value) (value, bool) {
+		if isSymbolic(a[0]) {
+			return "<duration>", true
+		}
+		return nil, false
+	},
 }
 
 func (in *interpreter) noteEnv(s string) {
